@@ -1,5 +1,6 @@
 import QV.Proofs.Arith
 import QV.Proofs.Mul
+import QV.Proofs.ArithStaged
 import QV.Proofs.Front6
 import QV.Proofs.Front9
 import QV.Proofs.Front10
@@ -233,6 +234,17 @@ theorem mul_spec (ρ : Env) (cl cr : Bool) (nl nr : Nat) (l r : List BExp) :
     (l.length = nl → r.length = nr →
       (qMul Quirks.none cl cr nl nr l r).1 = mulSizing (max nl nr) (max nl nr)) :=
   qMul_spec ρ cl cr nl nr l r
+
+/-- **the tie of the evaluation of wide products** (`QV/Model/ArithStaged.lean`).  The bits of the schoolbook
+product share their sub-expressions; walked as trees they have about 10^10 nodes for `Qint[12] * Qint[12]`, so the
+driver evaluates the model of `mul` on operands of the largest widths row by row (`qMulLit ρ`: the inner loop
+`mulRow` itself, the product list replaced by the literals of its values after every row).  For every assignment,
+both `is_const` outcomes and all widths this gives the result type of `qMul` and, bit for bit, the values of its
+expressions. -/
+theorem mul_rowwise_eval (ρ : Env) (cl cr : Bool) (nl nr : Nat) (l r : List BExp) :
+    (qMulLit ρ cl cr nl nr l r).1 = (qMul Quirks.none cl cr nl nr l r).1 ∧
+    (qMulLit ρ cl cr nl nr l r).2.map (·.eval ρ) = (qMul Quirks.none cl cr nl nr l r).2.map (·.eval ρ) :=
+  qMulLit_eval ρ cl cr nl nr l r
 
 /-- for the model of the code with the `mul_even_const` shortcut still present, `mul` is the
 schoolbook `mul` whenever neither operand is a constant -/
